@@ -274,6 +274,39 @@ func genMathSweeps(w *lib.Writer, r *lib.Rand) {
 			}
 		}
 	}
+	// (6) the wrappers whose yardstick is Go's own math (exp log trig pow atan2 ...): the same binades,
+	//     and pow with every integer exponent that 2^n, 2^-n can take; a disagreement is a Go-side failure
+	fails := map[string]int{}
+	goRun := func(fn string, xs ...float64) {
+		if fails[fn] >= sweepForwardCap {
+			return
+		}
+		before := len(w.Meta.GoViolations)
+		runMath(w, mIn(fn, xs...))
+		fails[fn] += len(w.Meta.GoViolations) - before
+	}
+	unary := lib.SortedKeys(goOnly1)
+	for k := -1074; k <= 1023; k++ {
+		vs := binadeValues(r, k)
+		for _, fn := range unary {
+			goRun(fn, vs[0])
+			goRun(fn, vs[1+(k+1074)%4])
+		}
+		x, ax := vs[3], math.Abs(vs[3])
+		for _, y := range []float64{2, 0.5, -1, 3, -0.5, 1.0 / 3} {
+			goRun("pow", x, y)
+			goRun("pow", ax, y)
+		}
+		goRun("atan2", vs[1], 1)
+		goRun("atan2", 1, vs[1])
+		goRun("atan2", vs[2], vs[4])
+		goRun("atan2", vs[0], math.Ldexp(1.25, -k))
+	}
+	for n := -1130; n <= 1130; n++ {
+		for _, b := range []float64{2, 0.5, -2, 4, 1.5} {
+			goRun("pow", b, float64(n))
+		}
+	}
 }
 
 // callNums calls math.<fn> on numbers and returns the numeric results.
